@@ -13,7 +13,8 @@ PROPERTY = "C54"
 FTPM = "protocols/ftp.py"
 FPM = "python/filepath.py"
 QF = "twisted.protocols.ftp"
-TECHNIQUE = "sink provenance, footprint table, guard dominance; descendant(): loop shape + bounded evaluation"
+TECHNIQUE = ("sink provenance (column-wise through rows of tuples), footprint table, guard dominance; descendant(): loop / fold shape + bounded evaluation; "
+             "toSegments: per-component guards on the split loop + bounded evaluation against the clause (normalise/evaluated)")
 EXPLANATION = (
     "Decides a provenance chain: (1) in class FTP every path argument of every self.shell.<op>(...) call is a variable all of "
     "whose definitions are toSegments(self.workingDirectory, <argument>), and self.workingDirectory is only ever [] or such a "
@@ -899,6 +900,12 @@ MUTANTS = [
     Mutant("coercion-strips-trailing-separator", FPM, "        return path.encode(encoding, errors=\"surrogateescape\")", "        return path.rstrip(\"/\").encode(encoding, errors=\"surrogateescape\")",
            expect_rule="coercion/pure-re-encoding"),
     Mutant("list-stats-from-root", _F, "            fileEntries = [filePath.child(p) for p in entries]", "            fileEntries = [self.filesystemRoot.preauthChild(os.path.join(*path, p)) for p in entries]", expect_rule="shell/"),
+    # ---- round-3 shapes: list() over (name, node) rows, descendant() as a fold, toSegments as a hand-written scanner
+    Mutant("list-rows-node-column-built-from-the-raw-name", FTPM, '            entries = filePath.listdir()\n            fileEntries = [filePath.child(p) for p in entries]\n        elif filePath.isfile():\n            entries = [os.path.join(*filePath.segmentsFrom(self.filesystemRoot))]\n            fileEntries = [filePath]\n        else:\n            return defer.fail(FileNotFoundError(path))\n\n        results = []\n        for fileName, filePath in zip(entries, fileEntries):\n', '            rows = []\n            for p in filePath.listdir():\n                rows.append((p, self.filesystemRoot.preauthChild(p)))\n        elif filePath.isfile():\n            rows = [(os.path.join(*filePath.segmentsFrom(self.filesystemRoot)), filePath)]\n        else:\n            return defer.fail(FileNotFoundError(path))\n\n        results = []\n        for fileName, filePath in rows:\n', expect_rule="shell/helper-gets-confined-path"),
+    Mutant("descendant-fold-steps-with-preauthChild", FPM, '        for name in segments:\n            path = path.child(name)\n        return path\n', '        return functools.reduce(lambda above, name: above.preauthChild(name), segments, path)\n', expect_rule="shell/descendant-is-child-per-segment"),
+    Mutant("scanner-keeps-dot-components", FTPM, '    for s in path.split("/"):\n        if s == "." or s == "":\n            continue\n        elif s == "..":\n            if segs:\n                segs.pop()\n            else:\n                raise InvalidPath(cwd, path)\n        elif "\\0" in s or "/" in s:\n            raise InvalidPath(cwd, path)\n        else:\n            segs.append(s)\n    return segs\n', '    rest = path\n    while rest is not None:\n        s, sep, tail = rest.partition("/")\n        rest = tail if sep else None\n        if s == "..":\n            if not segs:\n                raise InvalidPath(cwd, path)\n            segs.pop()\n        elif "\\0" in s:\n            raise InvalidPath(cwd, path)\n        elif s not in ("",):\n            segs.append(s)\n    return segs\n', expect_rule="normalise/evaluated"),
+    Mutant("scanner-ignores-dotdot-at-the-root", FTPM, '    for s in path.split("/"):\n        if s == "." or s == "":\n            continue\n        elif s == "..":\n            if segs:\n                segs.pop()\n            else:\n                raise InvalidPath(cwd, path)\n        elif "\\0" in s or "/" in s:\n            raise InvalidPath(cwd, path)\n        else:\n            segs.append(s)\n    return segs\n', '    rest = path\n    while rest is not None:\n        s, sep, tail = rest.partition("/")\n        rest = tail if sep else None\n        if s == "..":\n            if False:\n                raise InvalidPath(cwd, path)\n            if segs:\n                segs.pop()\n        elif "\\0" in s:\n            raise InvalidPath(cwd, path)\n        elif s not in (".", ""):\n            segs.append(s)\n    return segs\n',
+           expect_rule="normalise/evaluated"),
 ]
 SILENT = [
     Silent("rename-segments-variable", _F, "            newsegs = toSegments(self.workingDirectory, path)\n        except InvalidPath:\n            return defer.fail(FileNotFoundError(path))\n        return self.shell.removeFile(newsegs)",
@@ -933,4 +940,7 @@ SILENT = [
     Silent("cwd-callback-as-private-method", _F, "        def accessGranted(result):\n            self.workingDirectory = segments\n            return (REQ_FILE_ACTN_COMPLETED_OK,)\n\n        return self.shell.access(segments).addCallback(accessGranted)",
            "        return self.shell.access(segments).addCallback(self._cwdGranted, segments)",
            more=[(_F, "    def ftp_CDUP(self):", "    def _cwdGranted(self, result, segments):\n        self.workingDirectory = segments\n        return (REQ_FILE_ACTN_COMPLETED_OK,)\n\n    def ftp_CDUP(self):")]),
+    Silent("list-over-name-node-rows", FTPM, '            entries = filePath.listdir()\n            fileEntries = [filePath.child(p) for p in entries]\n        elif filePath.isfile():\n            entries = [os.path.join(*filePath.segmentsFrom(self.filesystemRoot))]\n            fileEntries = [filePath]\n        else:\n            return defer.fail(FileNotFoundError(path))\n\n        results = []\n        for fileName, filePath in zip(entries, fileEntries):\n', '            rows = []\n            for p in filePath.listdir():\n                rows.append((p, filePath.child(p)))\n        elif filePath.isfile():\n            rows = [(os.path.join(*filePath.segmentsFrom(self.filesystemRoot)), filePath)]\n        else:\n            return defer.fail(FileNotFoundError(path))\n\n        results = []\n        for fileName, filePath in rows:\n'),
+    Silent("descendant-as-a-fold", FPM, '        for name in segments:\n            path = path.child(name)\n        return path\n', '        return functools.reduce(lambda above, name: above.child(name), segments, path)\n', more=[(FPM, "import errno\n", "import errno\nimport functools\n")]),
+    Silent("toSegments-as-a-partition-scanner", FTPM, '    for s in path.split("/"):\n        if s == "." or s == "":\n            continue\n        elif s == "..":\n            if segs:\n                segs.pop()\n            else:\n                raise InvalidPath(cwd, path)\n        elif "\\0" in s or "/" in s:\n            raise InvalidPath(cwd, path)\n        else:\n            segs.append(s)\n    return segs\n', '    rest = path\n    while rest is not None:\n        s, sep, tail = rest.partition("/")\n        rest = tail if sep else None\n        if s == "..":\n            if not segs:\n                raise InvalidPath(cwd, path)\n            segs.pop()\n        elif "\\0" in s:\n            raise InvalidPath(cwd, path)\n        elif s not in (".", ""):\n            segs.append(s)\n    return segs\n'),
 ]
